@@ -1,4 +1,5 @@
 """C02 — every backend behaves like one per-bucket event list (necessary clauses)."""
+from ..rules_codec import codec_peewee, codec_sqlite
 from ..rules_read import last_rule
 from ..rules_store import addr_rule, ddl_facts, idalloc_memory, scope_memory, scope_peewee, scope_sqlite, upsert_rule, forward_bucket
 
@@ -24,6 +25,9 @@ def check(prog, rep):
     ddl_facts(prog, rep)
     idalloc_memory(prog, rep)
     forward_bucket(prog, rep)
+    # what is written is what a list would hold: the SQL backends' encode/decode tables and scale constants agree
+    codec_sqlite(prog, rep)
+    codec_peewee(prog, rep)
     # observation only: single insert of an id-bearing event differs between backends
     rep.note("sibling cross-check (observation, not a rule): a single insert of an id-bearing event is an upsert in memory and peewee but a plain INSERT that ignores the id in sqlite; the property speaks of bulk upsert only")
 
@@ -50,6 +54,7 @@ VARIANTS = [
     ("B inherited insert_many skips falsy events", AB, "        for event in events:\n            self.insert_one(bucket_id, event)", "        for event in events:\n            if event.data:\n                self.insert_one(bucket_id, event)", "UPSERT"),
     ("B memory id from the event count", ME, "                event.id = max(int(e.id or 0) for e in self.db[bucket]) + 1", "                event.id = len(self.db[bucket])", "IDALLOC"),
     ("B events.id without AUTOINCREMENT", SQ, "        id INTEGER PRIMARY KEY AUTOINCREMENT,\n        bucketrow", "        id INTEGER PRIMARY KEY,\n        bucketrow", "SCHEMA"),
+    ("B sqlite replace drops the days of the duration", SQ, "    def replace(self, bucket_id, event_id, event) -> bool:\n        starttime = event.timestamp.timestamp() * 1000000\n        endtime = starttime + (event.duration.total_seconds() * 1000000)", "    def replace(self, bucket_id, event_id, event) -> bool:\n        starttime = event.timestamp.timestamp() * 1000000\n        endtime = starttime + (event.duration.seconds * 1000000)", "CODEC"),
     ("OK explicit ASC on the tie-break", SQ, "                        ORDER BY starttime DESC, id DESC LIMIT 1)\"\"\"", "                        ORDER BY starttime  DESC ,  id  DESC  LIMIT  1)\"\"\"", "ok"),
     ("OK memory replace_last via reversed sort", ME, "last = sorted(self.db[bucket_id], key=lambda e: e.timestamp)[-1]", "last = sorted(self.db[bucket_id], key=lambda e: e.timestamp)[::-1][0]", "ok"),
     ("OK partition written with not", SQ, "        events_insert = [e for e in events if e.id is None]", "        events_insert = [e for e in events if not e.id is not None]", "ok"),
